@@ -224,6 +224,7 @@ class CaseResult:
         self.deadlock: Optional[str] = None
         self.after: Any = None
         self.states: List[Dict[str, Any]] = []
+        self.flip_log_index: List[int] = []         # track_states == "pointer": len(log) when each pointer change was seen
         self.store: Any = None
 
 
@@ -251,6 +252,40 @@ def run_case(scratch: str, case: Dict[str, Any], chooser_factory: Callable[[S.Sc
         from . import mems3
         store = mems3.MemS3(sc.now_ms)
         store.conflict_code = case.get("s3_conflict", "412")
+        sf = case.get("s3_fault")
+        if sf:
+            # one request-level fault at the boto surface: the nth <op> on a key of class <cls> issued by an actor is
+            # answered by a transient error BEFORE ("before": not applied) or AFTER its effect ("after": applied, response lost)
+            seen_sf = {"n": 0, "fired": False}
+
+            def _sf_exc() -> Exception:
+                from botocore.exceptions import ClientError, ReadTimeoutError
+                if sf.get("exc") == "500":
+                    return ClientError({"Error": {"Code": "InternalError", "Message": "injected"}, "ResponseMetadata": {"HTTPStatusCode": 500}}, "PutObject")
+                return ReadTimeoutError(endpoint_url="mem://s3")
+
+            def _sf_match(op: str, key: str) -> bool:
+                if seen_sf["fired"] or sc.me() is None or op != sf.get("op", "put_object"):
+                    return False
+                if path_class(key.split("/", 1)[1] if "/" in key else key) != sf.get("cls", "hint"):
+                    return False
+                return True
+            if sf.get("when", "after") == "after":
+                def after_hook(op: str, key: str) -> None:
+                    if _sf_match(op, key):
+                        seen_sf["n"] += 1
+                        if seen_sf["n"] == sf.get("nth", 1):
+                            seen_sf["fired"] = True
+                            raise _sf_exc()
+                store.after_hook = after_hook
+            else:
+                def before_hook(op: str, key: str, _kw: Dict[str, Any]) -> None:
+                    if _sf_match(op, key):
+                        seen_sf["n"] += 1
+                        if seen_sf["n"] == sf.get("nth", 1):
+                            seen_sf["fired"] = True
+                            raise _sf_exc()
+                store.hook = before_hook
 
         def factory(tp: str) -> Any:
             return S.instrument_backend(sc, mems3.make_s3_backend(store, "tbl", conditional=(backend_kind == "s3cas")), lock_mode=lock_mode)
@@ -303,10 +338,29 @@ def run_case(scratch: str, case: Dict[str, Any], chooser_factory: Callable[[S.Sc
 
         res.states = [{"rows": sorted(r["x"] for r in res.initial["rows"]), "nsnap": len(res.initial["snapshot_order"])}]
         seen_flips = [0]
+        try:
+            last_ptr = [reader_root(HINT) if callable(reader_root) else open(os.path.join(reader_root, HINT), "rb").read()]
+        except Exception:       # noqa: BLE001
+            last_ptr = [None]
+        res.flip_log_index = []
 
         def hook(_a: S.Actor) -> None:
             nsteps[0] += 1
-            if case.get("track_states"):
+            if case.get("track_states") == "pointer":
+                # a new state whenever the pointer's CONTENT changed (whatever the writer was told about its write)
+                try:
+                    cur_ptr = reader_root(HINT) if callable(reader_root) else open(os.path.join(reader_root, HINT), "rb").read()
+                except Exception:       # noqa: BLE001
+                    cur_ptr = None
+                if cur_ptr != last_ptr[0]:
+                    last_ptr[0] = cur_ptr
+                    try:
+                        st = read_table_independent(reader_root)
+                        res.states.append({"rows": sorted(r["x"] for r in st["rows"]), "nsnap": len(st["snapshot_order"])})
+                    except Exception as ex:     # noqa: BLE001
+                        res.states.append({"rows": None, "nsnap": None, "unreadable": repr(ex)[:120]})
+                    res.flip_log_index.append(len(sc.log))
+            elif case.get("track_states"):
                 nf = sum(1 for e in sc.log if e["op"] in ("write_file", "write_file_cas") and path_class(e["path"]) == "hint"
                          and e["result"] == "ok")
                 while seen_flips[0] < nf:
